@@ -193,7 +193,7 @@ GOTRANS = {"gocircuit": "GoCircuit", "gohopener": "GoHOpener", "gohcloser": "GoH
            "goatomicboolean": "GoAtomicBoolean", "goatomicint64": "GoAtomicInt64",
            "gonewrc": "GoNewRC", "gonewrp": "GoNewRP", "gorcwall": "GoRCWall", "gorpsnap": "GoRPSnap", "godbiter": "GoDBIter", "gosdvar": "GoSDVar",
            "gostatsrun": "GoStatsRun", "gostatsfb": "GoStatsFb", "gostatsfactory": "GoStatsFactory", "gostatsfind": "GoStatsFind",
-           "goctor": "GoCtor", "goctorset": "GoCtorSet", "gocircmisc": "GoCircMisc", "gomanagerall": "GoManagerAll", "gotchook": "GoTCHook", "goslofactory": "GoSloFactory", "gorollingstore": "GoRollingStore"}
+           "goctor": "GoCtor", "goctorset": "GoCtorSet", "gocircmisc": "GoCircMisc", "gomanagerall": "GoManagerAll", "gotchook": "GoTCHook", "goslofactory": "GoSloFactory", "gorollingstore": "GoRollingStore", "goruni": "GoRunI"}
 
 def regenerate(name):
     """re-run an extractor on REPO's working tree and (re)write lean/Generated/<file> if it changed.
